@@ -1,6 +1,7 @@
 package commitlog
 
 import (
+	"sort"
 	"time"
 
 	"github.com/pkg/errors"
@@ -201,7 +202,13 @@ func (c *deleteCleaner) deleteSegments(segments []*segment) error {
 
 	// Phase 2: Actually delete the files. If this fails partway through,
 	// the segments are already marked deleted and won't be visible to readers.
-	// Remaining files will be cleaned up on the next cleanup cycle.
+	// Remaining files will be cleaned up on the next cleanup cycle. Delete
+	// the oldest segment first: if the process dies part-way, what is left on
+	// disk is still a contiguous suffix of the log.
+	segments = append([]*segment(nil), segments...)
+	sort.Slice(segments, func(i, j int) bool {
+		return segments[i].BaseOffset < segments[j].BaseOffset
+	})
 	var firstErr error
 	for _, seg := range segments {
 		if err := seg.Delete(); err != nil {
